@@ -127,7 +127,7 @@ func runFixtures(vdir string) (map[string]string, error) {
 			engine = "E1 guard dominance"
 			got = true
 			for _, ci := range callsIn(f, shortIs("mark")) {
-				got = !guarded(f, ci.(ssa.Instruction), Atom{"(" + f.Params[0].Name() + " < 10)", true})
+				got = !guarded(f, ci.(ssa.Instruction), Atom{"(" + pname(f.Params[0]) + " < 10)", true})
 			}
 		case strings.HasPrefix(rest, "Lock"):
 			engine = "E3 lockset leak"
